@@ -37,10 +37,6 @@ func (r *readOnlyFile) Stat() (hackpadfs.FileInfo, error) {
 	return r.file.Stat()
 }
 
-func (r *readOnlyFile) Truncate(size int64) error {
-	return r.file.Truncate(size)
-}
-
 func (r *readOnlyFile) ReadDir(n int) ([]hackpadfs.DirEntry, error) {
 	return r.file.ReadDir(n)
 }
